@@ -8,6 +8,7 @@ the same the harness sends to the Lean driver; `render()` prints it as Lean term
   value  := None | bool | int | {"f": "n/d" | "nan" | "inf" | "-inf"} | str | [value…] (tuple/list literal)
   expr   := ["var"] | ["lit", value] | ["cmp", op, expr, expr] | ["and", e, e] | ["or", e, e] | ["not", e]
           | ["mod", e, int] | ["bitand", e, e] | ["in", e, [value…]] | ["isnone", e] | ["isnan", e]
+          | ["isscalar", e]
   schema := ["type", name] | ["func", expr] | ["oracle", name] | ["all", [schema…]] | ["any", [schema…]]
           | ["list", [schema…]] | ["dict", [[key, optional, schema]…]]
   action := ["default", key, value] | ["default_nan", key, value] | ["guard_ne", key, value, err]
@@ -143,6 +144,8 @@ def expr(node, param: str):
         if isinstance(f, ast.Attribute) and isinstance(f.value, ast.Name):
             if (f.value.id, f.attr) == ("np", "isnan") and len(node.args) == 1 and not node.keywords:
                 return ["isnan", expr(node.args[0], param)]
+            if (f.value.id, f.attr) == ("np", "isscalar") and len(node.args) == 1 and not node.keywords:
+                return ["isscalar", expr(node.args[0], param)]
             if (f.value.id, f.attr) == ("common", "is_method") and len(node.args) == 2 and not node.keywords:
                 items = const_value(node.args[1])
                 if not isinstance(items, list):
@@ -624,14 +627,60 @@ def check_input_section_shape(mod):
             raise Unsupported(f"check_input_section: missing `{needle}`")
 
 
+STATE_MACHINE = "pandora/state_machine.py"
+
+
+def extract_machine_flags():
+    """two facts about state_machine.py the model is parametrised by (Model/Config.lean `MachineFlags`)"""
+    mod = parse(STATE_MACHINE)
+    cls = find_class(mod, "PandoraMachine")
+    # check_band_pipeline: if not band_used: … elif isinstance(band_used, dict): … else: [wrap a str] for band in band_used: …
+    fn = find_method(cls, "check_band_pipeline")
+    body = [s for s in fn.body if not (isinstance(s, ast.Expr) and isinstance(s.value, ast.Constant))]
+    if not (len(body) == 1 and isinstance(body[0], ast.If) and ast.unparse(body[0].test) == "not band_used"):
+        raise Unsupported("check_band_pipeline: unexpected shape")
+    second = body[0].orelse
+    if not (len(second) == 1 and isinstance(second[0], ast.If) and ast.unparse(second[0].test) == "isinstance(band_used, dict)"):
+        raise Unsupported("check_band_pipeline: unexpected second branch")
+    last = second[0].orelse
+    loop = "for band in band_used:\n    if band not in band_list:\n        raise AttributeError("
+    texts = [ast.unparse(s) for s in last]
+    wrap = "if isinstance(band_used, str):\n    band_used = [band_used]"
+    if len(texts) == 1 and texts[0].startswith(loop):
+        band_whole = False
+    elif len(texts) == 2 and texts[0] == wrap and texts[1].startswith(loop):
+        band_whole = True
+    else:
+        raise Unsupported("check_band_pipeline: unexpected final branch")
+    # check_conf: is self.pipeline_cfg emptied before the loop over the steps?
+    fn = find_method(cls, "check_conf")
+    reset = False
+    for stmt in fn.body:
+        if isinstance(stmt, ast.For):
+            break
+        for node in ast.walk(stmt):
+            if isinstance(node, ast.Assign) and len(node.targets) == 1 and ast.unparse(node.targets[0]) == "self.pipeline_cfg":
+                if ast.unparse(node.value) != "{'pipeline': {}}":
+                    raise Unsupported("check_conf: unexpected assignment to self.pipeline_cfg")
+                reset = True
+    # the callbacks store each step's completed configuration under its name
+    text = ast.unparse(cls)
+    for cb in ("matching_cost", "disparity", "filter", "refinement", "aggregation", "validation", "multiscale", "cost_volume_confidence"):
+        if f"def {cb}_check_conf(" not in text:
+            raise Unsupported(f"{cb}_check_conf not found")
+    if text.count("self.pipeline_cfg['pipeline'][input_step] = ") != 10:
+        raise Unsupported("the check callbacks do not all store their step configuration in pipeline_cfg")
+    return {"bandWhole": band_whole, "resetPipelineCfg": reset}
+
+
 def extract():
     kinds = []
-    sources = [CHECK_CONFIGURATION]
+    sources = [CHECK_CONFIGURATION, STATE_MACHINE]
     for kind, pkg, absfile, absname in KINDS:
         k, used = extract_kind(kind, pkg, absfile, absname)
         kinds.append(k)
         sources.extend(used)
-    return {"kinds": kinds, "input": extract_input(), "sources": sources}
+    return {"kinds": kinds, "input": extract_input(), "flags": extract_machine_flags(), "sources": sources}
 
 
 # --------------------------------------------------------------------------------------------
@@ -659,7 +708,7 @@ def lean_value(v) -> str:
         fr = Fraction(f)
         if fr.denominator == 1:
             return f"JVal.float (FVal.num ({fr.numerator}))"
-        return f"JVal.float (FVal.num (({fr.numerator} : Rat) / {fr.denominator}))"
+        return f"JVal.float (FVal.num (mkRat ({fr.numerator}) {fr.denominator}))"
     if isinstance(v, dict) and "o" in v:
         return "JVal.obj [" + ", ".join(f"({lean_str(k)}, {lean_value(x)})" for k, x in v["o"]) + "]"
     raise Unsupported(f"value {v!r}")
@@ -685,6 +734,8 @@ def lean_expr(e) -> str:
         return f"Expr.isNone ({lean_expr(e[1])})"
     if tag == "isnan":
         return f"Expr.npIsnan ({lean_expr(e[1])})"
+    if tag == "isscalar":
+        return f"Expr.npIsscalar ({lean_expr(e[1])})"
     raise Unsupported(f"expr {e!r}")
 
 
@@ -748,6 +799,11 @@ def render(data) -> str:
         out.append("  classes := [" + ", ".join(c["className"] for c in k["classes"]) + "] }")
         out.append("")
     out.append("def registry : List KindDesc := [" + ", ".join(f"kind_{k['kind']}" for k in data["kinds"]) + "]")
+    out.append("")
+    fl = data["flags"]
+    out.append("/-- read from `pandora/state_machine.py` (`check_band_pipeline`, `check_conf`) -/")
+    out.append("def machineFlags : MachineFlags := { bandWhole := %s, resetPipelineCfg := %s }"
+               % ("true" if fl["bandWhole"] else "false", "true" if fl["resetPipelineCfg"] else "false"))
     out.append("")
     inp = data["input"]
     out.append("def inputSchemas : InputSchemas := {")
